@@ -411,4 +411,15 @@ theorem view_after_runs : ∀ (es : List MEv) (mw : MWorld) (k : Nat) (v : World
       · exact Or.inl h
       · exact Or.inr (List.mem_cons_of_mem _ h)
 
+/-! definitional (not counted as a property theorem) -/
+
+/-- a fresh request's view: pending, own deadline, live entry, and it agrees with the connection -/
+theorem new_request_view (env : World) (n : Nat) (τ : Option Int) :
+    (newView env n τ).ar.isReady = false ∧ (newView env n τ).ar.ttl = Timeout.make env.now τ
+      ∧ (newView env n τ).live = true ∧ (newView env n τ).seq = n ∧ Inv (newView env n τ)
+      ∧ Agree (newView env n τ) env := by
+  refine ⟨rfl, rfl, rfl, rfl, ?_, newView_agree env n τ⟩
+  intro h
+  simp [newView, setExpiry, AR.init] at h
+
 end Rpyc.Async
